@@ -17,7 +17,7 @@ meta = {
     ],
     "confirmed": {
         "repo_tests_pass_with_change": "41 passed" in log,
-        "demo_fails_with_change": "FAILED" in log.split("== (c)")[0] if "== (c)" in log else None,
+        "demo_fails_with_change": (("FAILED" in log.split("== (c)")[0]) or ("error: test failed" in log.split("== (c)")[0])) if "== (c)" in log else None,
         "demo_passes_without_change": ("test result: ok" in log.split("== (c)")[1]) if "== (c)" in log else None,
     },
     "detected_by": detected,
